@@ -6,6 +6,7 @@ package main
 import (
 	"fmt"
 	"go/ast"
+	"go/parser"
 	"go/token"
 	"regexp"
 	"strings"
@@ -262,10 +263,15 @@ func checkC08(ctx *Ctx, r *Report) {
 	r.Count("template files parsed", ts.files)
 	checkRecursiveTemplate(ctx, r, ts, recValidate, true)
 	checkRecursiveTemplate(ctx, r, ts, recStrict, false)
+	checkLoopDepth(ctx, r, ts, recValidate)
+	checkLoopDepth(ctx, r, ts, recStrict)
+	r.Floor("depth-named loops in recursive templates", 4)
 	r.Floor("branches of recursive templates", 14)
 	c08ResolvesToConstraints(ctx, r)
 	c08StrictSkeleton(ctx, r, ts)
+	c08WholesaleLeafOnly(ctx, r)
 	c09OperatorTable(ctx, r)
+	c09BoundAgreement(ctx, r)
 }
 
 func checkC13(ctx *Ctx, r *Report) {
@@ -280,6 +286,8 @@ func checkC13(ctx *Ctx, r *Report) {
 	r.Count("template files parsed", ts.files)
 	checkRecursiveTemplate(ctx, r, ts, recEquality, false)
 	r.Floor("branches of recursive templates", 8)
+	checkLoopDepth(ctx, r, ts, recEquality)
+	r.Floor("depth-named loops in recursive templates", 2)
 	// every branch with a comparison emits `return false`; arrays/maps compare lengths; nullable compares nil-ness
 	tree := ts.trees[recEquality.define]
 	if tree == nil {
@@ -292,6 +300,7 @@ func checkC13(ctx *Ctx, r *Report) {
 			break
 		}
 	}
+	c13NilSymmetry(ctx, r, ts, ifChain(top))
 	for i, b := range ifChain(top) {
 		if b.cond == nil {
 			continue
@@ -549,4 +558,253 @@ func c08StrictSkeleton(ctx *Ctx, r *Report, ts *tmplSet) {
 	r.Check(norm(conds["missing"]) == "and $field.Required (eq $field.Type.Default nil)", "skeleton/strict-decoder", "missing rejected iff required without default", token.NoPos, "condition: "+conds["missing"],
 		file+": the 'required field is missing' error is emitted under `"+conds["missing"]+"` instead of Required ∧ Default == nil")
 	r.Check(strings.Contains(after, "return errs"), "skeleton/strict-decoder", "errors are returned", token.NoPos, "collected errors are returned", file+": the strict decoder no longer returns the errors it collected")
+}
+
+// checkLoopDepth: the recursive templates name the loop variables of the Go code they emit after the
+// recursion depth (`for key{{ $depth }} := range …`). A recursive call made inside such a loop must
+// pass a depth strictly above the one used in the name — `(add1 S)` for the very expression S that
+// suffixes the loop variable — otherwise the nested loop shadows the variable and every check emitted
+// below it reads the wrong element.
+var loopHeadRe = regexp.MustCompile(`for\s+(\w+)$`)
+
+func checkLoopDepth(ctx *Ctx, r *Report, ts *tmplSet, rt recTemplate) {
+	tree := ts.trees[rt.define]
+	if tree == nil {
+		return // reported by checkRecursiveTemplate
+	}
+	file := ts.file[rt.define]
+	loops := 0
+	var visitList func(l *parse.ListNode, suffix string, loopVar string)
+	visitNode := func(n parse.Node, suffix, loopVar string) {}
+	visitList = func(l *parse.ListNode, suffix string, loopVar string) {
+		if l == nil {
+			return
+		}
+		for i, n := range l.Nodes {
+			if tx, ok := n.(*parse.TextNode); ok && i+2 < len(l.Nodes) {
+				if m := loopHeadRe.FindStringSubmatch(strings.TrimRight(string(tx.Text), " ")); m != nil {
+					if an, ok := l.Nodes[i+1].(*parse.ActionNode); ok && len(an.Pipe.Decl) == 0 {
+						if nx, ok := l.Nodes[i+2].(*parse.TextNode); ok && strings.HasPrefix(strings.TrimLeft(string(nx.Text), " "), ":= range") {
+							suffix, loopVar = strings.TrimSpace(an.Pipe.String()), m[1]
+							loops++
+						}
+					}
+				}
+			}
+			visitNode(n, suffix, loopVar)
+		}
+	}
+	visitNode = func(n parse.Node, suffix, loopVar string) {
+		switch x := n.(type) {
+		case *parse.IfNode:
+			visitList(x.List, suffix, loopVar)
+			visitList(x.ElseList, suffix, loopVar)
+		case *parse.RangeNode:
+			visitList(x.List, suffix, loopVar)
+			visitList(x.ElseList, suffix, loopVar)
+		case *parse.WithNode:
+			visitList(x.List, suffix, loopVar)
+			visitList(x.ElseList, suffix, loopVar)
+		case *parse.TemplateNode:
+			if x.Name != rt.define || suffix == "" {
+				return
+			}
+			got := strings.Join(strings.Fields(dictArgs(x.Pipe)["Depth"]), " ")
+			want := "add1 " + suffix
+			got = strings.TrimSuffix(strings.TrimPrefix(got, "("), ")")
+			if strings.HasPrefix(got, "$") && got != suffix {
+				// `$next := add1 $depth` declared in the same define
+				got = strings.Join(strings.Fields(resolveVar(got, varDecls(tree.Root))), " ")
+			}
+			if got == "add "+suffix+" 1" || got == "add 1 "+suffix {
+				got = want
+			}
+			r.Check(got == want, "skeleton/loop-depth-fresh", fmt.Sprintf("%s call inside `for %s%s`", rt.define, loopVar, suffix), token.NoPos,
+				"the nested call receives "+want+": its loop variables differ from "+loopVar+suffix,
+				fmt.Sprintf("%s: inside the loop over `%s{{ %s }}` the recursive call passes Depth=%s instead of %s: for a collection nested in this one the emitted inner loop can reuse the same variable name and shadow the outer one, so nested elements are read through the wrong index/key", ts.posOf(ctx, rt.define, x), loopVar, suffix, got, want))
+		}
+	}
+	visitList(tree.Root, "", "")
+	r.Count("depth-named loops in recursive templates", loops)
+	_ = file
+}
+
+// ---------------------------------------------------------------------------
+// nil-ness symmetry in the equality template
+
+var ifLineRe = regexp.MustCompile(`(?m)^\s*if (.*?) \{`)
+
+// evalNilCond evaluates an emitted Go condition over the nil-ness of S and O. Atoms other than
+// `S == nil`, `S != nil`, `O == nil`, `O != nil` make it undecidable (ok=false).
+func evalNilCond(e ast.Expr, sNil, oNil bool) (val bool, ok bool) {
+	switch x := ast.Unparen(e).(type) {
+	case *ast.UnaryExpr:
+		if x.Op == token.NOT {
+			v, ok := evalNilCond(x.X, sNil, oNil)
+			return !v, ok
+		}
+	case *ast.BinaryExpr:
+		switch x.Op {
+		case token.LAND, token.LOR:
+			a, ok1 := evalNilCond(x.X, sNil, oNil)
+			b, ok2 := evalNilCond(x.Y, sNil, oNil)
+			if x.Op == token.LAND {
+				return a && b, ok1 && ok2
+			}
+			return a || b, ok1 && ok2
+		case token.EQL, token.NEQ:
+			// X == nil / X != nil
+			if id, isID := ast.Unparen(x.X).(*ast.Ident); isID {
+				if n, isNil := ast.Unparen(x.Y).(*ast.Ident); isNil && n.Name == "nil" {
+					var isNilVal bool
+					switch id.Name {
+					case "S":
+						isNilVal = sNil
+					case "O":
+						isNilVal = oNil
+					default:
+						return false, false
+					}
+					if x.Op == token.EQL {
+						return isNilVal, true
+					}
+					return !isNilVal, true
+				}
+			}
+			// (bool) == (bool)
+			a, ok1 := evalNilCond(x.X, sNil, oNil)
+			b, ok2 := evalNilCond(x.Y, sNil, oNil)
+			if ok1 && ok2 {
+				if x.Op == token.EQL {
+					return a == b, true
+				}
+				return a != b, true
+			}
+		}
+	}
+	return false, false
+}
+
+// c13NilSymmetry: wherever the equality template opens a `if <self> != nil {` block (the values are
+// only compared when self is set), the text emitted before it in the same branch contains an `if`
+// that is true exactly when the nil-ness of self and other differ, and that returns false.
+func c13NilSymmetry(ctx *Ctx, r *Report, ts *tmplSet, branches []tmplBranch) {
+	guards := 0
+	for i, b := range branches {
+		if b.cond == nil {
+			continue
+		}
+		txt := tmplText(b.body)
+		txt = strings.ReplaceAll(txt, "⟦{{.SelfName}}⟧", "S")
+		txt = strings.ReplaceAll(txt, "⟦{{.OtherName}}⟧", "O")
+		locs := ifLineRe.FindAllStringSubmatchIndex(txt, -1)
+		for _, loc := range locs {
+			cond := txt[loc[2]:loc[3]]
+			if strings.Join(strings.Fields(cond), " ") != "S != nil" {
+				continue
+			}
+			guards++
+			cons := fmt.Sprintf("type_equality_check branch #%d (%s) nil guard", i+1, strings.TrimSpace(b.cond.String()))
+			found := false
+			why := "no `if` precedes the guard"
+			for _, prev := range locs {
+				if prev[0] >= loc[0] {
+					break
+				}
+				pc := txt[prev[2]:prev[3]]
+				e, err := parser.ParseExpr(pc)
+				if err != nil {
+					why = "the preceding condition `" + pc + "` is not a Go expression over the two values"
+					continue
+				}
+				xor := true
+				decided := true
+				for _, sn := range []bool{true, false} {
+					for _, on := range []bool{true, false} {
+						v, ok := evalNilCond(e, sn, on)
+						if !ok {
+							decided = false
+						}
+						if v != (sn != on) {
+							xor = false
+						}
+					}
+				}
+				if !decided {
+					why = "the preceding condition `" + pc + "` is not a combination of nil tests on the two values (comparing the pointers themselves is not a nil-ness test)"
+					continue
+				}
+				if !xor {
+					why = "the preceding condition `" + pc + "` is not true exactly when one side is nil and the other is not"
+					continue
+				}
+				// its body returns false
+				rest := txt[prev[1]:loc[0]]
+				if strings.HasPrefix(strings.TrimSpace(rest), "return false") {
+					found = true
+				} else {
+					why = "the nil-ness test does not return false"
+				}
+			}
+			r.Check(found, "skeleton/nilness-symmetric", cons, token.NoPos, "preceded by a test that returns false exactly when one side is nil and the other is not",
+				ts.file[recEquality.define]+": the block comparing the values is entered when self is set, but "+why+": a set value and an unset one compare equal in one direction (or Equals dereferences a nil pointer)")
+		}
+	}
+	r.Count("nil guards in the equality template", guards)
+	r.Floor("nil guards in the equality template", 3)
+}
+
+// c08WholesaleLeafOnly: the strict decoder hands arrays / maps "of scalars" to encoding/json as a whole
+// instead of walking them. The helpers deciding that (resolvesToArrayOfScalars / resolvesToMapOfScalars)
+// may only accept leaf kinds: a composite kind accepted there is decoded without any strictness below it.
+func c08WholesaleLeafOnly(ctx *Ctx, r *Report) {
+	p := ctx.Pkg("internal/jennies/golang")
+	if p == nil {
+		return
+	}
+	info := p.TypesInfo
+	n := 0
+	for _, f := range p.Syntax {
+		ast.Inspect(f, func(m ast.Node) bool {
+			kv, ok := m.(*ast.KeyValueExpr)
+			if !ok {
+				return true
+			}
+			key, ok := kv.Key.(*ast.BasicLit)
+			if !ok || !(strings.Contains(key.Value, "OfScalars")) {
+				return true
+			}
+			lit, ok := kv.Value.(*ast.FuncLit)
+			if !ok {
+				return true
+			}
+			name := strings.Trim(key.Value, "\"")
+			// placeholders panic; the real helper calls Is{Array,Map}OfKinds
+			var call *ast.CallExpr
+			ast.Inspect(lit.Body, func(k ast.Node) bool {
+				if c, ok := k.(*ast.CallExpr); ok {
+					if fn := callee(info, c); fn != nil && (fn.Name() == "IsArrayOfKinds" || fn.Name() == "IsMapOfKinds") {
+						call = c
+					}
+				}
+				return true
+			})
+			if call == nil {
+				return true
+			}
+			n++
+			var extra []string
+			for _, a := range call.Args[1:] {
+				s := exprString(a)
+				if !strings.HasSuffix(s, "KindScalar") && !strings.HasSuffix(s, "KindEnum") {
+					extra = append(extra, s)
+				}
+			}
+			r.Check(len(extra) == 0 && !call.Ellipsis.IsValid(), "kinds/wholesale-leaf-only", "golang strict decoder helper "+name, call.Pos(), "only leaf kinds (scalar, enum) are decoded wholesale",
+				fmt.Sprintf("%s accepts %v: collections of these kinds are handed to encoding/json as a whole, so unknown keys, missing required fields and nulls below them are no longer reported", name, extra))
+			return true
+		})
+	}
+	r.Count("wholesale-decoding helpers", n)
+	r.Floor("wholesale-decoding helpers", 2)
 }
